@@ -31,7 +31,7 @@ func outcomeTree(c *explore.Ctx, e *Entry, s string, res ParseResult) {
 	}
 	c.OutcomeStr(e.Name + cls + sh)
 	if len(allNodes(res.Roots)) >= 2 {
-		c.Nontrivial(explore.Hash(e.Name + s))
+		c.Nontrivial(explore.Hash(s))
 	}
 }
 
@@ -79,7 +79,7 @@ func C09(r *explore.Run) {
 		ne := 0
 		if res.Err != nil {
 			ne = 1
-			c.Nontrivial(explore.Hash(e.Name + s))
+			c.Nontrivial(explore.Hash(s))
 		}
 		c.OutcomeStr(fmt.Sprintf("%s/%d/%d/%d/%s", e.Name, ne, wr, bn, shapeOf(res.Roots)))
 	})
@@ -98,7 +98,7 @@ func C10(r *explore.Run) {
 		c.Count("bad_nodes", int64(n))
 		c.OutcomeStr(e.Name + shapeOf(res.Roots))
 		if n > 0 {
-			c.Nontrivial(explore.Hash(e.Name + s))
+			c.Nontrivial(explore.Hash(s))
 		}
 		// recovery-mode lexer == public lexer on lexically clean text
 		if e.Name == "ParseStatements" || e.Name == "ParseDDLs" {
